@@ -336,6 +336,12 @@ pub struct Timestamp(u64);
 /// Tracks the last timestamp returned by [`Timestamp::now`] to ensure monotonicity.
 static LAST_TIMESTAMP: AtomicU64 = AtomicU64::new(0);
 
+/// Verification accessor for the private [`LAST_TIMESTAMP`] (see `verif_hooks::c33`).
+#[cfg(feature = "verif-hooks")]
+pub(crate) fn verif_last_timestamp() -> &'static AtomicU64 {
+    &LAST_TIMESTAMP
+}
+
 impl Timestamp {
     /// Returns a strictly monotonic timestamp.
     ///
@@ -347,9 +353,13 @@ impl Timestamp {
             .duration_since(SystemTime::UNIX_EPOCH)
             .expect("system time before UNIX epoch")
             .as_micros() as u64;
+        #[cfg(feature = "verif-hooks")]
+        let micros = crate::verif_hooks::c33::clock_override().unwrap_or(micros);
         // Ensure strictly monotonic: if the clock went backward or two calls
         // land in the same microsecond, we increment from the last value.
         let mut last = LAST_TIMESTAMP.load(Ordering::Relaxed);
+        #[cfg(feature = "verif-hooks")]
+        crate::verif_hooks::sched::pause_sync("c33.loaded");
         loop {
             let next = micros.max(last + 1);
             match LAST_TIMESTAMP.compare_exchange_weak(
